@@ -37,18 +37,25 @@
   Scope (what is a step of the machine, `Ark.RelRefine.guard`).  Handles are opaque and component
   IDs are obtained by registration: an operation on a handle no `new` returned, a target that is
   neither the zero entity nor such a handle, or adding an unregistered component ID, is not a
-  step.  In addition the relation arguments of `new` / `add` must be well-formed (`RelsWF`: no
-  relation component named twice, each names a relation component among `ids`, every relation
-  component among `ids` is named), and through `Unsafe` their targets must be valid.  These
-  restrictions are forced by FINDINGS (§ 7): the model creates the archetype before `createTable`
-  notices a relation component named twice (refused with `relTwice` since the repair of defect
-  D18 — finding 1 of `Props/C04World.lean` —, § 7 (f)), a missing relation, a non-relation
-  component, or — through `Unsafe` — a dead target, so that such a call is refused but NOT without
-  effect.  Everything else is a step: dead handles, components present / absent, empty and
-  duplicate lists, a full registry, and for `setrel` (any path) a relation component named twice
-  (refused since the repair of defect D19, § 7 (e)), a relation component the entity lacks, a
-  dead target; a dead target of `new` / `add` through a typed path — the specification leaves its
-  state unchanged and the model panics without effect (`rejected`).
+  step.  In addition the relation arguments of `new` / `add` must satisfy `RelsStep`: no relation
+  component named twice, every relation component among `ids` named, and — through `Map[T]` only,
+  whose pre-validation has no membership check in the model — each on a component among `ids`.
+  This restriction is forced by FINDINGS (§ 7): the model creates the archetype before
+  `createTable` notices a relation component named twice (refused with `relTwice` since the repair
+  of defect D18 — finding 1 of `Props/C04World.lean` —; since the repair of defect D26 also by
+  `GetTable`, without effect, when the archetype has an active table; § 7 (f)) or a missing
+  relation, so that such a call is refused but — when the archetype is new or has no active
+  table — NOT without effect.  (Until the repair of the `Unsafe` API the guard
+  asked for the whole of `RelsWF` — also: each relation names a relation component among `ids` —,
+  and through `Unsafe` for valid targets: `Unsafe` noticed those late, too.  Now the
+  pre-validation of `Unsafe` and `MapN` refuses them without effect, § 7 (a), (c).)  Everything
+  else is a step: a relation on a non-relation component, a relation on a component that is not
+  added (`Unsafe`, `MapN`), dead handles, components present / absent, empty and duplicate lists, a full registry, and for
+  `setrel` (any path) a relation component named twice (refused since the repair of defect D19,
+  § 7 (e)), a relation component the entity lacks, a dead target; a dead target of `new` / `add`
+  through ANY path (through `Unsafe` since the repair of its relation validation,
+  `ToCheckedRelationIDsForUnsafe`; § 7 (a)) — the specification leaves its state unchanged and the
+  model panics without effect (`rejected`).
 
   Bound: `ops.length < 2^16`.  `RemoveEntity` of a relation target may create one table per
   relation archetype (`RemovedRelPost.tablesLen`), every operation creates at most one relation
@@ -148,8 +155,9 @@ theorem targets_zero_or_alive_world (ops : List Op) (hlen : ops.length < 2 ^ 16)
 /-- **rejected** — a step of the machine (`guard`) whose precondition (`pre`, a statement about
     the specification only) fails: the model panics with the world unchanged, and the whole
     machine state (world, returned handles, specification) is unchanged.  Includes: a dead
-    target named by `setrel` (any path) or by `new` / `add` through a typed path, and (since the
-    repair of defect D19) a `setrel` naming one relation component twice. -/
+    target named by `setrel`, `new` or `add` through any path (`Unsafe` too, since the repair of
+    its relation validation), and (since the repair of defect D19) a `setrel` naming one relation
+    component twice. -/
 theorem rejected (ops : List Op) (op : Op) (hlen : ops.length + 1 < 2 ^ 16)
     (hg : guard (reach run cap rel ops) op = true) (hnp : ¬ pre (reach run cap rel ops).ss op) :
     (∃ k, exec run (reach run cap rel ops).w op = .panic k (reach run cap rel ops).w) ∧
@@ -166,9 +174,9 @@ theorem accepted (ops : List Op) (op : Op) (hlen : ops.length + 1 < 2 ^ 16)
     ∃ r w', exec run (reach run cap rel ops).w op = .ok r w' :=
   RelRefine.accepted run cap rel ops op hlen hg hp
 
-/-- **a dead target is never accepted** — in every reachable state, through ANY path (also
-    `Unsafe`, for which such a call is not a step of the machine): `NewEntity` with well-formed
-    relation arguments naming a dead target does not return … -/
+/-- **a dead target is never accepted** — in every reachable state, through ANY path, whether
+    or not the target is a handle the client was given: `NewEntity` with well-formed relation
+    arguments naming a dead target does not return … -/
 theorem dead_target_not_accepted_new (ops : List Op) (hlen : ops.length + 1 < 2 ^ 16) (p : Path)
     (ids : List Comp) (vals : Comps) (rels : Rels)
     (hreg : ∀ c ∈ ids, c < (reach run cap rel ops).ss.zst.length)
@@ -517,8 +525,8 @@ example :
     agrees (step noProbe (reach noProbe 2 2 demoOps) (.rem .unsafe_ ⟨4, 0⟩ [1])) = true := by
   decide +kernel
 
-/-- rejected steps in the final state (`p1` is dead): a dead target through a typed path
-    (`setrel`, `new`, `add`), a dead entity, a relation component the entity lacks — the machine
+/-- rejected steps in the final state (`p1` is dead): a dead target (`setrel`, `new`, `add`; for
+    `Unsafe` see § 7 (a)), a dead entity, a relation component the entity lacks — the machine
     state does not move and the world comes back unchanged -/
 example :
     guard (reach noProbe 2 2 demoOps) (.setrel .typed ⟨6, 0⟩ [⟨0, p1⟩]) = true ∧
@@ -539,26 +547,44 @@ example :
 /-! ## 7. findings: why the guard restricts the relation arguments
 
 All calls are made in the final state of `demoOps` (a reachable state, `p1 = 2.0` is dead).  The
-model refuses each of them — but NOT without effect: `findOrCreateTableAdd` creates the archetype
-of the new mask before `getTable` / `createTable` look at the relations.  (Whether the world
-reached still satisfies the invariants is not proved, and for (c) it does not: the new archetype
-has no relation column and no table, which `SInv.settled` forbids.  The next valid call that needs
-the archetype finds it and creates its table.)  These calls are therefore not steps of the
-machine. -/
+model refuses each of them — (b) and (f) NOT without effect: `findOrCreateTableAdd` creates the
+archetype of the new mask before `getTable` / `createTable` look at the relations.  (Whether the
+world reached still satisfies the invariants is not proved.  The next valid call that needs the
+archetype finds it and creates its table.)  These calls are therefore not steps of the machine.
+(a) and (c) were of this kind through `Unsafe` until the `Unsafe` API was repaired to validate
+its relation arguments like the typed API (`ToCheckedRelationIDsForUnsafe`); they are kept to show
+the repaired behaviour. -/
 
-/-- (a) a dead target through `Unsafe` (`NewEntity`, `Add`): refused with `deadTarget`, one more
-    archetype; through the typed paths the same call is refused before anything is touched
-    (`rejected`) -/
+/-- (a) REPAIRED: a dead target through `Unsafe` (`NewEntity`, `Add`) is refused with
+    `deadTarget` before anything is touched, as through the typed paths — it is a step of the
+    machine on every path (`rejected`).  Before the repair the archetype had already been created
+    (one more archetype: `(2, 3, 3, 2)`), and the call was excluded from the machine. -/
 example :
-    guard (reach noProbe 2 2 demoOps) (.new .unsafe_ [0] [] [⟨0, p1⟩]) = false ∧
+    guard (reach noProbe 2 2 demoOps) (.new .unsafe_ [0] [] [⟨0, p1⟩]) = true ∧
+    guard (reach noProbe 2 2 demoOps) (.add .unsafe_ p2 [0] [] [⟨0, p1⟩]) = true ∧
     guard (reach noProbe 2 2 demoOps) (.new .typed [0] [] [⟨0, p1⟩]) = true ∧
     panicOf (opNewEntity noProbe .unsafe_ [0] [] [⟨0, p1⟩] (reach noProbe 2 2 demoOps).w) =
+      some .deadTarget ∧
+    panicOf (opAdd noProbe .unsafe_ p2 [0] [] [⟨0, p1⟩] (reach noProbe 2 2 demoOps).w) =
       some .deadTarget ∧
     ((reach noProbe 2 2 demoOps).w.archetypes.length,
       (opNewEntity noProbe .unsafe_ [0] [] [⟨0, p1⟩] (reach noProbe 2 2 demoOps).w).state.archetypes.length,
       (opAdd noProbe .unsafe_ p2 [0] [] [⟨0, p1⟩] (reach noProbe 2 2 demoOps).w).state.archetypes.length,
       (opNewEntity noProbe .typed [0] [] [⟨0, p1⟩] (reach noProbe 2 2 demoOps).w).state.archetypes.length) =
-      (2, 3, 3, 2) := by
+      (2, 2, 2, 2) := by
+  decide +kernel
+
+/-- … the tables are untouched and the machine state does not move -/
+example :
+    summary (opNewEntity noProbe .unsafe_ [0] [] [⟨0, p1⟩] (reach noProbe 2 2 demoOps).w).state =
+      summary (reach noProbe 2 2 demoOps).w ∧
+    (step noProbe (reach noProbe 2 2 demoOps) (.new .unsafe_ [0] [] [⟨0, p1⟩])).ss.ents =
+      (reach noProbe 2 2 demoOps).ss.ents := by
+  decide +kernel
+
+example :
+    summary (opAdd noProbe .unsafe_ p2 [0] [] [⟨0, p1⟩] (reach noProbe 2 2 demoOps).w).state =
+      summary (reach noProbe 2 2 demoOps).w := by
   decide +kernel
 
 /-- (b) a relation component among `ids` that `rels` does not name: refused with
@@ -570,21 +596,35 @@ example :
     (opNewEntity noProbe .typed [0] [] [] (reach noProbe 2 2 demoOps).w).state.archetypes.length = 3 := by
   decide +kernel
 
-/-- (c) a relation naming a component that is not a relation component, through `Unsafe`:
-    refused with `notRelation`, one more archetype — without relation columns and without a
-    table -/
+/-- (c) REPAIRED: a relation naming a component that is not a relation component, or a
+    component that is not among `ids`, through `Unsafe`: refused with `notRelation` resp.
+    `relNotInMask` before anything is touched (before the repair: refused with `notRelation` by
+    `createTable`, one more archetype — without relation columns and without a table, which
+    `SInv.settled` forbids).  Such calls are now steps of the machine (`rejected` applies: `NewOK` /
+    `AddOK` fail); only through `Map[T]`, where the model has no membership check, the guard still
+    asks that the relations are on components among `ids`. -/
 example :
-    guard (reach noProbe 2 2 demoOps) (.new .unsafe_ [1] [] [⟨1, p2⟩]) = false ∧
+    guard (reach noProbe 2 2 demoOps) (.new .unsafe_ [1] [] [⟨1, p2⟩]) = true ∧
+    guard (reach noProbe 2 2 demoOps) (.new .unsafe_ [1] [] [⟨0, p2⟩]) = true ∧
+    guard (reach noProbe 2 2 demoOps) (.add .unsafe_ p2 [1] [] [⟨0, p3⟩]) = true ∧
+    guard (reach noProbe 2 2 demoOps) (.new .map1 [1] [] [⟨0, p2⟩]) = false ∧
+    ¬ NewOK (reach noProbe 2 2 demoOps).ss [1] [⟨1, p2⟩] ∧
     panicOf (opNewEntity noProbe .unsafe_ [1] [] [⟨1, p2⟩] (reach noProbe 2 2 demoOps).w) =
       some .notRelation ∧
-    (opNewEntity noProbe .unsafe_ [1] [] [⟨1, p2⟩] (reach noProbe 2 2 demoOps).w).state.archetypes.length = 3 ∧
-    (((opNewEntity noProbe .unsafe_ [1] [] [⟨1, p2⟩] (reach noProbe 2 2 demoOps).w).state.arch 2).hasRelations,
-      ((opNewEntity noProbe .unsafe_ [1] [] [⟨1, p2⟩] (reach noProbe 2 2 demoOps).w).state.arch 2).tables.tables) =
-      (false, []) := by
+    panicOf (opNewEntity noProbe .unsafe_ [1] [] [⟨0, p2⟩] (reach noProbe 2 2 demoOps).w) =
+      some .relNotInMask ∧
+    panicOf (opAdd noProbe .unsafe_ p2 [1] [] [⟨0, p3⟩] (reach noProbe 2 2 demoOps).w) =
+      some .relNotInMask ∧
+    (opNewEntity noProbe .unsafe_ [1] [] [⟨1, p2⟩] (reach noProbe 2 2 demoOps).w).state.archetypes.length = 2 ∧
+    summary (opNewEntity noProbe .unsafe_ [1] [] [⟨1, p2⟩] (reach noProbe 2 2 demoOps).w).state =
+      summary (reach noProbe 2 2 demoOps).w ∧
+    (opNewEntity noProbe .unsafe_ [1] [] [⟨0, p2⟩] (reach noProbe 2 2 demoOps).w).state.archetypes.length = 2 ∧
+    (opAdd noProbe .unsafe_ p2 [1] [] [⟨0, p3⟩] (reach noProbe 2 2 demoOps).w).state.archetypes.length = 2 := by
   decide +kernel
 
-/-- (d) by contrast `SetRelations` with a dead target is a step also through `Unsafe`: the
-    archetype exists, `createTable` checks the target before it touches anything (`rejected`) -/
+/-- (d) `SetRelations` with a dead target is a step through every path, also before the repair
+    (the archetype exists, `createTable` checks the target before it touches anything); since the
+    repair `Unsafe.SetRelations` refuses it in its pre-validation (`rejected`) -/
 example :
     guard (reach noProbe 2 2 demoOps) (.setrel .unsafe_ ⟨6, 0⟩ [⟨0, p1⟩]) = true ∧
     panicOf (opSetRelations noProbe .unsafe_ ⟨6, 0⟩ [0] [⟨0, p1⟩] (reach noProbe 2 2 demoOps).w) =
@@ -627,12 +667,21 @@ example :
         (reach noProbe 2 2 demoOps).w).state.tbl 2).len) = (some 9, some p2, (2, 0), 1) := by
   decide +kernel
 
-/-- (f) **defect D18, repaired: `NewEntity` / `Add` naming one relation component twice** are
-    refused with `relTwice` by `createTable` (before the repair they were accepted, finding 1 of
-    `Props/C04World.lean`) — but `createTable` runs after `findOrCreateArch`, so when the archetype
-    is new the refusal is not without effect (one more archetype), on every path: such calls stay
-    outside the machine (`RelsWF` in `guard`) -/
+/-- (f) **defects D18 and D26, repaired: `NewEntity` / `Add` naming one relation component
+    twice** are refused with `relTwice` — by `createTable` when no table matches (D18; before that
+    repair they were accepted, finding 1 of `Props/C04World.lean`), and by `GetTable`'s slow path
+    when the archetype has an active table (D26; before that repair the list was accepted when a
+    table matched, the duplicate standing in for a relation component nobody named:
+    `Props/C10Rel.lean` § 4).  With an active table the refusal is without effect
+    (`World.opNewEntity_relTwice`: here the archetype `{ChildOf, Pos}`).  But when the archetype is
+    new, or has no active table, `GetTable` answers "no table" BEFORE any check and `createTable`
+    runs after `findOrCreateArch`: the refusal is not without effect (one more archetype), on
+    every path.  This late case is why such calls stay outside the machine (the "no relation
+    component named twice" conjunct of `RelsStep` in `guard` cannot be dropped: whether the call is
+    without effect depends on the archetypes of the world, not on the specification state) -/
 example :
+    (opNewEntity noProbe .unsafe_ [0, 1] [] [⟨0, p3⟩, ⟨0, p2⟩]
+      (reach noProbe 2 2 demoOps).w).state.archetypes.length = 2 ∧
     guard (reach noProbe 2 2 demoOps) (.new .typed [0] [] [⟨0, p3⟩, ⟨0, p2⟩]) = false ∧
     panicOf (opNewEntity noProbe .typed [0] [] [⟨0, p3⟩, ⟨0, p2⟩] (reach noProbe 2 2 demoOps).w) =
       some .relTwice ∧
@@ -641,6 +690,11 @@ example :
     ((reach noProbe 2 2 demoOps).w.archetypes.length,
       (opNewEntity noProbe .typed [0] [] [⟨0, p3⟩, ⟨0, p2⟩]
         (reach noProbe 2 2 demoOps).w).state.archetypes.length) = (2, 3) := by
+  decide +kernel
+
+example :
+    summary (opNewEntity noProbe .unsafe_ [0, 1] [] [⟨0, p3⟩, ⟨0, p2⟩]
+      (reach noProbe 2 2 demoOps).w).state = summary (reach noProbe 2 2 demoOps).w := by
   decide +kernel
 
 end Ark.Props.C04Hist
